@@ -1,22 +1,22 @@
 import LenaModel.Model.NArr
 /-! # C12 model — histogram and graph arithmetic, scaling and conversions
 
-Transcription (of the code as it is now in /repo, after `fix:` 7a20429) of
+Transcription (of the code as it is now in /repo, after the `fix:` commits 7a20429 and e1eb9d9) of
 
 * `_check_edges_increasing_1d`, `check_edges_increasing` (hist_functions.py:71-102),
   `histogram.__init__` (histogram.py:47-164), `init_bins` (hist_functions.py:394-435, via `NArr.full`),
-* `unify_1_md` (hist_functions.py:639-651), `integral` (hist_functions.py:438-455),
-* `histogram.scale` (histogram.py:330-369), `histogram.add` (histogram.py:166-207) with
+* `unify_1_md` (hist_functions.py:640-652), `integral` (hist_functions.py:438-455),
+* `histogram.scale` (histogram.py:331-370), `histogram.add` (histogram.py:166-208) with
   `lena.math.isclose` (math/utils.py:47-102) and `md_map` (`NArr.mdMap`, `NArr.mdMap2`),
-  `get_nevents`, `set_nevents` (histogram.py:265-323), `histogram._update_context` (371-398),
+  `get_nevents`, `set_nevents` (histogram.py:266-324), `histogram._update_context` (372-399),
 * `iter_bins` (`NArr.cells`), `get_bin_on_index` (`NArr.getBin`), `get_bin_edges`
-  (hist_functions.py:105-123), `iter_bins_with_edges` (474-507), `iter_cells` (510-612, index
+  (hist_functions.py:105-123), `iter_bins_with_edges` (474-509), `iter_cells` (512-613, index
   `ranges`; `coord_ranges` are outside the model),
 * `hist_to_graph` (hist_functions.py:299-391),
 * `graph.__init__`, `_parse_error_names`, `_get_err_indices`, `__iter__`/`rows`, `scale`, `__add__`
-  (graph.py:15-160,176-271,273-317,373-417),
-* `hist1d_to_csv`, `hist2d_to_csv` (to_csv.py:120-180: the rows, as tuples of numbers — `{:f}`
-  formatting is not modelled) and the dispatch of `ToCSV.run` for one value (to_csv.py:224-337),
+  (graph.py:16-158,176-271,273-316,374-418),
+* `hist1d_to_csv`, `hist2d_to_csv` (to_csv.py:120-181: the rows, as tuples of numbers — `{:f}`
+  formatting is not modelled) and the dispatch of `ToCSV.run` for one value (to_csv.py:224-338),
 * `scale_to` (flow/group_scale.py:8-62) and `ScaleTo.__call__` (structures/elements.py:119-138).
 
 Modelling decisions (DESIGN.md section 3, C12):
@@ -46,7 +46,7 @@ inductive Edges where
   | nested : List (List Q) → Edges
   deriving Repr, DecidableEq
 
-/-- `unify_1_md(bins, edges)[1]` (hist_functions.py:639-651), also `if hist.dim == 1: edges = (edges,)` of
+/-- `unify_1_md(bins, edges)[1]` (hist_functions.py:640-652), also `if hist.dim == 1: edges = (edges,)` of
 `iter_cells` and `if not isinstance(edges[0], list): edges = [edges]` of `iter_bins_with_edges`:
 one list of edges per axis -/
 def Edges.axes : Edges → List (List Q)
@@ -151,7 +151,7 @@ def getScale (h : Hist) (recompute : Bool) : Except Err (Hist × Q) :=
     let s ← integral h.bins h.edges.axes
     pure ({ h with scale := some s }, s)
 
-/-- `hist.scale(other)` for a number `other` (histogram.py:355-369) -/
+/-- `hist.scale(other)` for a number `other` (histogram.py:356-370) -/
 def setScale (h : Hist) (other : Q) : Except Err Hist := do
   let (h1, scale) ← getScale h false
   if scale = 0 then .error .lenaValueError
@@ -170,12 +170,12 @@ def cacheScale (h : Hist) : Hist :=
 /-- `sum(...)` of Python, from 0 -/
 def sumQ (l : List Q) : Q := l.foldl (· + ·) 0
 
-/-- `hist.get_nevents(include_out_of_range)` (histogram.py:265-284) -/
+/-- `hist.get_nevents(include_out_of_range)` (histogram.py:266-284) -/
 def getNevents (h : Hist) (includeOut : Bool) : Q :=
   let nIn := sumQ (values h.bins)
   if includeOut then nIn + h.nOut else nIn
 
-/-- `hist.set_nevents(nevents, include_out_of_range)` (histogram.py:286-323) -/
+/-- `hist.set_nevents(nevents, include_out_of_range)` (histogram.py:286-324) -/
 def setNevents (h : Hist) (nevents : Q) (includeOut : Bool) : Except Err Hist :=
   let old := getNevents h includeOut
   if old = 0 then .error .lenaValueError
@@ -220,7 +220,7 @@ def iscloseEdges (t : Tol) : Edges → Edges → Except Err Bool
   | .nested [], _ => .ok true
   | _, _ => .error .typeError
 
-/-- `self.add(other, weight, edges_abs_tol, edges_rel_tol)` (histogram.py:166-207); `other` is a histogram -/
+/-- `self.add(other, weight, edges_abs_tol, edges_rel_tol)` (histogram.py:166-208); `other` is a histogram -/
 def add (self other : Hist) (weight : Q) (t : Tol) : Except Err Hist := do
   let differ ←
     if self.nbins ≠ other.nbins then pure true
@@ -248,7 +248,7 @@ def cellEdges : List (List Q) → List Nat → Except Err (List (Q × Q))
       pure ((lo, hi) :: rest)
     | _, _ => .error .indexError
 
-/-- `iter_bins_with_edges(bins, edges)` (hist_functions.py:474-507): `(bin content, bin edges)` for the index
+/-- `iter_bins_with_edges(bins, edges)` (hist_functions.py:474-509): `(bin content, bin edges)` for the index
 tuples `itertools.product(*[range(len(edge)-1) for edge in edges])`.  The content is whatever
 `get_bin_on_index` returns (a sub-array when `bins` are deeper than `edges`). -/
 def iterBinsWithEdges (bins : NArr Q) (edges : Edges) : Except Err (List (NArr Q × List (Q × Q))) :=
@@ -269,7 +269,7 @@ structure HistCell where
 def rangeFromTo (low : Nat) (up : Int) : List Nat :=
   (List.range (up.toNat - low)).map (· + low)
 
-/-- the `for coord, coord_range in enumerate(ranges)` loop of `iter_cells` (hist_functions.py:583-603):
+/-- the `for coord, coord_range in enumerate(ranges)` loop of `iter_cells` (hist_functions.py:585-605):
 `axes` are the edges from position `coord` on -/
 def realIndRanges : List (List Q) → List (Option Int × Option Int) → Except Err (List (List Nat))
   | _, [] => .ok []
@@ -285,7 +285,7 @@ def realIndRanges : List (List Q) → List (Option Int × Option Int) → Except
     let tail ← realIndRanges es rest
     pure (rangeFromTo low up :: tail)
 
-/-- `iter_cells(hist, ranges)` (hist_functions.py:510-612) without `coord_ranges`; `ranges = None` or empty
+/-- `iter_cells(hist, ranges)` (hist_functions.py:512-613) without `coord_ranges`; `ranges = None` or empty
 means `((None, None),) * hist.dim` -/
 def iterCells (h : Hist) (ranges : Option (List (Option Int × Option Int))) : Except Err (List HistCell) := do
   let axes := h.edges.axes
@@ -307,7 +307,7 @@ abbrev Name := List Char
 /-- `"error_"` -/
 def errorPrefix : Name := "error_".toList
 
-/-- the first loop of `_parse_error_names` (graph.py:277-290): error fields `(field, ind)`, `last_coord_ind`;
+/-- the first loop of `_parse_error_names` (graph.py:277-292): error fields `(field, ind)`, `last_coord_ind`;
 `LenaValueError` when a coordinate field follows an error field -/
 def splitFields : List Name → Nat → Bool → Nat → Except Err (List (Name × Nat) × Nat)
   | [], _, _, lastCoord => .ok ([], lastCoord)
@@ -329,7 +329,7 @@ structure ParsedErr where
   ind : Nat
   deriving Repr, DecidableEq
 
-/-- the second loop of `_parse_error_names` (graph.py:295-313) -/
+/-- the second loop of `_parse_error_names` (graph.py:294-314) -/
 def parseErrs (coords : List Name) : List (Name × Nat) → Except Err (List ParsedErr)
   | [] => .ok []
   | (err, ind) :: rest =>
@@ -341,7 +341,7 @@ def parseErrs (coords : List Name) : List (Name × Nat) → Except Err (List Par
       pure ({ coord := c, tail := errMain.drop (c.length + 1), ind := ind } :: tail)
     | _ :: _ :: _ => .error .lenaValueError
 
-/-- `graph._parse_error_names(field_names)` (graph.py:273-315).  `coords` is a set in Python; the field
+/-- `graph._parse_error_names(field_names)` (graph.py:273-316).  `coords` is a set in Python; the field
 names are already known to be distinct here. -/
 def parseErrorNames (fieldNames : List Name) : Except Err (List ParsedErr) := do
   let (errors, lastCoordInd) ← splitFields fieldNames 0 false 0
@@ -393,7 +393,7 @@ def sameLengths : List (List Q) → Bool
   | [] => true
   | c :: cs => cs.all (fun arr => arr.length == c.length)
 
-/-- `graph.__init__(coords, field_names, scale)` (graph.py:15-160) -/
+/-- `graph.__init__(coords, field_names, scale)` (graph.py:16-158) -/
 def mkGraph (coords : List (List Q)) (fieldNames : FieldNamesArg) (scale : Option Q) : Except Err Graph := do
   if coords.isEmpty then .error .lenaValueError
   else if !sameLengths coords then .error .lenaValueError
@@ -457,12 +457,12 @@ def sameCoordLengths (a b : List (List Q)) : Nat → Except Err Bool
     | some x, some y => pure (rest && x.length == y.length)
     | _, _ => .error .indexError
 
-/-- the scale of a sum of graphs: the sum of the scales if both are known (graph.py:403-413) -/
+/-- the scale of a sum of graphs: the sum of the scales if both are known (graph.py:404-414) -/
 def addScales : Option Q → Option Q → Option Q
   | some s0, some s1 => some (s0 + s1)
   | _, _ => none
 
-/-- `self + other` for two graphs (graph.py:373-417): the last coordinates are added point by point, the other
+/-- `self + other` for two graphs (graph.py:374-418): the last coordinates are added point by point, the other
 coordinates are taken from `self`, error fields are not copied — but all field names of `self` are given to the
 new graph, so a `self` with error fields ends in the `LenaValueError` of `graph.__init__`.  The `assert`s
 (equal dimensions, equal lengths of the other coordinates) are `AssertionError`s: outside the model. -/
@@ -561,7 +561,7 @@ def rows1dLoop (bins : List (NArr Q)) : List Q → Nat → Except Err (List (Lis
     let rest ← rows1dLoop bins xs (xInd + 1)
     pure ([x, c] :: rest)
 
-/-- the rows of `hist1d_to_csv(hist, duplicate_last_bin=…)` (to_csv.py:120-150) as `[x, content]` -/
+/-- the rows of `hist1d_to_csv(hist, duplicate_last_bin=…)` (to_csv.py:120-155) as `[x, content]` -/
 def rows1d (edges : List Q) (bins : NArr Q) (dup : Bool) : Except Err (List (List Q)) :=
   match bins with
   | .leaf _ => .error .typeError
@@ -619,7 +619,7 @@ def rows2dOuter (bins : NArr Q) (ys : List Q) (yLast : Option Q) (dup : Bool) :
     let (rest, last', lastX) ← rows2dOuter bins ys yLast dup xs (xInd + 1) last (some xInd)
     pure (inner ++ extra ++ rest, last', lastX)
 
-/-- the rows of `hist2d_to_csv(hist, duplicate_last_bin=…)` (to_csv.py:153-180) as `[x, y, content]` -/
+/-- the rows of `hist2d_to_csv(hist, duplicate_last_bin=…)` (to_csv.py:158-181) as `[x, y, content]` -/
 def rows2d (ex ey : List Q) (bins : NArr Q) (dup : Bool) : Except Err (List (List Q)) := do
   let ys := ey.dropLast
   let (rows, last, lastX) ← rows2dOuter bins ys ey.getLast? dup ex.dropLast 0 none none
@@ -640,7 +640,7 @@ inductive CsvOut where
   | table (rows : List (List Q))
   deriving Repr
 
-/-- `ToCSV.run` for one `(histogram, context)` value (to_csv.py:262-301): `toCsv` is `context.output.to_csv`
+/-- `ToCSV.run` for one `(histogram, context)` value (to_csv.py:262-302): `toCsv` is `context.output.to_csv`
 (default `True`), `ctxDup` is `context.output.duplicate_last_bin` if present, `elemDup` the element's setting -/
 def toCsvHist (h : Hist) (toCsv : Bool) (ctxDup : Option Bool) (elemDup : Bool) : Except Err CsvOut :=
   if !toCsv then .ok .unchanged
@@ -657,7 +657,7 @@ def toCsvHist (h : Hist) (toCsv : Bool) (ctxDup : Option Bool) (elemDup : Bool) 
       pure (.table rows)
     | .nested _ => .ok .unchanged
 
-/-- `ToCSV.run` for one `(graph, context)` value (to_csv.py:314-337): the rows of `graph.rows()` -/
+/-- `ToCSV.run` for one `(graph, context)` value (to_csv.py:315-338): the rows of `graph.rows()` -/
 def toCsvGraph (g : Graph) (toCsv : Bool) : CsvOut :=
   if !toCsv then .unchanged
   else .table g.rows   -- `if rows:` is true for the generator `iterable_to_table(...)`, even without rows
@@ -771,7 +771,7 @@ def scaleTo (target : ScaleTarget) (group : List Struct) (allowZero allowUnknown
 
 /-! ## `histogram._update_context` -/
 
-/-- `hist_context` of `histogram._update_context` (histogram.py:371-398): dim, nbins, n_out_of_range, ranges -/
+/-- `hist_context` of `histogram._update_context` (histogram.py:372-399): dim, nbins, n_out_of_range, ranges -/
 def histContext (h : Hist) : Nat × List Nat × Q × List (Option Q × Option Q) :=
   (h.dim, h.nbins, h.nOut, h.edges.axes.map (fun axis => (axis.head?, axis.getLast?)))
 
